@@ -2,6 +2,7 @@ import NanoVerif.Model.Config
 import NanoVerif.Proofs.Csv
 import NanoVerif.Proofs.Naming
 import NanoVerif.Proofs.TrConfig
+import NanoVerif.Proofs.TrWriteFont
 import NanoVerif.Props.C04
 /-
 C10 — What the driver resolves is exactly what the build steps see.
